@@ -198,6 +198,8 @@ def main(argv=None):
                                       % (path, (p.stdout + p.stderr)[-800:])})
     wall = time.time() - t0
     status = "ok"
+    if vac.get("vacuous") and not confirmed:
+        broken.append({"job": "vacuity", "status": "harness-error", "message": vac["vacuous"]})
     if broken:
         status = "inconclusive"
     if confirmed:
